@@ -128,6 +128,12 @@ impl Block for SymbolSync {
         let olen = o.len();
         let oslice = o.slice();
         for sample in input.iter() {
+            if opos == olen {
+                // Output full. Leave the rest of the input for the next call,
+                // rather than consuming a sample without updating the state
+                // for it.
+                break;
+            }
             n += 1;
             if self.stream_pos >= self.next_sym_middle {
                 // TODO: use more than center sample.
@@ -137,9 +143,6 @@ impl Block for SymbolSync {
                 }
                 opos += 1;
                 self.next_sym_middle += self.clock;
-                if opos == olen {
-                    break;
-                }
             }
             let sign = *sample > 0.0;
             if sign != self.last_sign {
